@@ -17,7 +17,10 @@ type refEntry struct {
 	hash  uint64
 	steps int64
 	have  bool
+	bad   bool // the call returned an error or panicked (what kind of history it makes)
 }
+
+const badBit = int64(1) << 62
 
 type refTable struct {
 	e []refEntry // indexed like pool.ops
@@ -124,7 +127,7 @@ func computeSlice(i, n int, reverse bool) map[int]refEntry {
 		soloOpIdx = int32(j)
 		r, st := soloOp(pool.ops[j], false)
 		soloOpIdx = -1
-		out[j] = refEntry{hash: r.hash, steps: st, have: true}
+		out[j] = refEntry{hash: r.hash, steps: st, have: true, bad: r.sub != nil && (r.sub.err != nil || r.sub.pan != nil)}
 	}
 	return out
 }
@@ -148,7 +151,11 @@ func writeRefPart(path string, part map[int]refEntry, slice, of int, reverse boo
 		if e, ok := part[j]; ok {
 			buf = binary.LittleEndian.AppendUint32(buf, uint32(j))
 			buf = binary.LittleEndian.AppendUint64(buf, e.hash)
-			buf = binary.LittleEndian.AppendUint64(buf, uint64(e.steps))
+			st := e.steps
+			if e.bad {
+				st |= badBit
+			}
+			buf = binary.LittleEndian.AppendUint64(buf, uint64(st))
 		}
 	}
 	// appendix: site statistics
@@ -226,6 +233,10 @@ func loadRefs(paths []string) (*refTable, []refConflict, error) {
 		for o := refHdr; o+20 <= refHdr+nrec*20; o += 20 {
 			j := int(binary.LittleEndian.Uint32(b[o:]))
 			e := refEntry{hash: binary.LittleEndian.Uint64(b[o+4:]), steps: int64(binary.LittleEndian.Uint64(b[o+12:])), have: true}
+			if e.steps&badBit != 0 {
+				e.steps &^= badBit
+				e.bad = true
+			}
 			if j >= len(t.e) {
 				return nil, nil, fmt.Errorf("%s: bad index", p)
 			}
